@@ -6,7 +6,12 @@ every operand position of operators, literal constructors, indexers, method call
 a representative set of library functions, including every short-circuit function
 (and/or/?./switch/switchCase/selectCase/selectAllCases/examine/coalesce) and user functions with 1-6
 overloads.  The real evaluation log is compared with the trace predicted by the evaluation-order
-reference (`Yaql.EvalOrder.trace`, and its plain-Python transcription `py_trace` kept here)."""
+reference (`Yaql.EvalOrder.trace`, and its plain-Python transcription `py_trace` kept here).
+
+Per-element lambdas (last clause): pipelines of streaming operators with the same probe expressions INSIDE their
+lambdas, lazy pipelines as second collection of join / zip / concat, consumed completely or partly; the real log
+must equal the log of a lazy plain-Python transcription (`RefEval`: each lambda once per element consumed, in
+order, none for elements never consumed) and of `Yaql.PerElem` (the model the per_element theorems are about)."""
 import json
 
 import common
@@ -31,7 +36,10 @@ TRUSTED = ['the expression generator and its bookkeeping of operand values (take
 ASSUMPTIONS = ['selectAllCases / examine return lazy iterators (documented); the generator consumes them on the spot with '
                '.toList(), which is the point at which the model places their operands',
                'probes cannot raise; expressions whose evaluation raises are regenerated',
-               'per-element lambdas of the query functions (select/where/..) are covered by C14, not here']
+               'per-element part: sources are list literals of <= 5 integers, <= 4 stages; the values of lambda bodies on elements '
+               'and the flags of short-circuit operators inside them come from separate real evaluations of the body on the '
+               'element; pipelines in which a lambda raises on some element are regenerated',
+               'orderBy: only the bound "at most once per element" is checked (the order in which keys are taken is left open)']
 
 
 def generate():
@@ -851,7 +859,46 @@ def sub_pipes(p):
             yield dict(p, stages=p['stages'][:i] + [{k: v for k, v in st.items() if k != 'id'}] + p['stages'][i + 1:])
 
 
+PRED_OPS = ('where', 'takeWhile', 'skipWhile', 'any', 'all', 'indexWhere', 'lastIndexWhere')
+
+
+def simple_bodies(st, key, n):
+    """plain one-probe lambdas that could stand in for the body `key` of stage `st`"""
+    two = st[key]['vars'] != ['$']
+    if key == 'pred' or key == 'body' and st['op'] in PRED_OPS:
+        texts = ['true', 'false'] + (['$1 < $2', '$2 > 15'] if two else ['$ > 2', '$ mod 2 = 0'])
+    else:
+        texts = ['$1 + $2'] if two else ['$']
+    for t in texts:
+        yield dict(text='tick(%d, %s)' % (n, t), x=dict(k='tick', id=n, a=dict(k='leaf')), vars=st[key]['vars'])
+
+
+def sub_bodies(p, counter):
+    for i, st in enumerate(p['stages']):
+        for key in ('body', 'body2', 'pred', 'sel'):
+            if key in st and not st[key]['text'].startswith('tick(9'):
+                counter[0] += 1
+                for b in simple_bodies(st, key, 900 + counter[0]):
+                    yield dict(p, stages=p['stages'][:i] + [dict(st, **{key: b})] + p['stages'][i + 1:])
+        if st.get('other'):
+            for q in sub_bodies(st['other'], counter):
+                yield dict(p, stages=p['stages'][:i] + [dict(st, other=q)] + p['stages'][i + 1:])
+
+
 def shrink_pipe(p, ctx, drv, kind):
+    p = shrink_pipe_shape(p, ctx, drv, kind)
+    counter = [0]
+    changed = True
+    while changed:
+        changed = False
+        for q in sub_bodies(p, counter):
+            if pipe_fails(q, ctx, drv, kind):
+                p, changed = q, True
+                break
+    return shrink_pipe_shape(p, ctx, drv, kind)
+
+
+def shrink_pipe_shape(p, ctx, drv, kind):
     changed = True
     while changed:
         changed = False
@@ -978,7 +1025,9 @@ def run(env, res):
     res.rule = ('typed random expressions of depth <= %d with a numbered probe in every operand position (operators, list/map '
                 'literals, indexer, method and keyword calls, library functions, every short-circuit function, a user '
                 'function with 1-6 overloads); distinct = distinct expression text; non-trivial = at least 3 probes and one '
-                'lazy operator or a call of the overloaded function' % max_depth)
+                'lazy operator or a call of the overloaded function. Plus pipelines of 1-4 streaming operators over a list '
+                'literal with such expressions as per-element lambdas, lazy pipelines as second collection of join/zip/concat, '
+                'consumed completely or partly (non-trivial = at least 2 probe events)' % max_depth)
     ctxs = {k: make_context(k) for k in range(1, 7)}
     hist = {}
     cases = []
@@ -1047,9 +1096,16 @@ LEVEL_TEXT = ('Lean 4: the evaluation log of the resolver model is one left-to-r
               'arguments, positional then keyword, under the common laziness signature (eager_once_in_order), and does not '
               'depend on the number of candidates (log_independent_of_candidates); over the evaluation-order model: '
               'eager_fragment_trace and the short_circuit_* theorems; C11Gen.lazy_params / lazy_functions re-prove on the '
-              'regenerated registry that the lazy parameters are where the model assumes. Tie: generated probe expressions '
-              'evaluated by the real engine, log compared with the predicted trace; C05/C06 tie the resolver model.')
+              'regenerated registry that the lazy parameters are where the model assumes; over the per-element model '
+              '(Yaql.PerElem: streams of probe deltas, stages with reactions): conservation of the log for every stage '
+              '(runOn_log), per_element_total / per_element (an operator that applies its lambda fires, for each input element '
+              'consumed and in input order, the probes of pulling it and of the lambda body on it, once - for the whole result '
+              'and for its first k+1 results; nothing of the elements behind), take_log (a consumer of k results consumes '
+              'exactly k), instances for select/where/distinct/takeWhile/skipWhile/selectMany/any/all/indexWhere/first/'
+              'accumulate/zip/concat/join (join_pass_events, join_empty_outer). Tie: generated probe expressions and '
+              'pipelines evaluated by the real engine, log compared with the predicted trace; C05/C06 tie the resolver model.')
 LEVEL_NOTE = ('trusted: Lean kernel; Model/EvalOrder.lean, Resolve.lean; the generator\'s bookkeeping (operand truthiness '
-              'taken from separate real evaluations). per-element lambdas are left to C14.')
+              'taken from separate real evaluations); Model/PerElem.lean and the harness\'s eager table of per-element facts; '
+              'the lazy transcription RefEval as the reference for the per-element clause.')
 TECHNIQUE = 'Lean 4 proof + generated registry facts + differential trace comparison with numbered probes'
 DESIGN_REF = 'DESIGN.md section 5, C11'
